@@ -34,6 +34,9 @@ type vfMemCase struct {
 		Ov  int `json:"ov"`
 		Ng  int `json:"ng"`
 	} `json:"opt"`
+	Arch  string `json:"arch"`  // "" = an architecture without graph formula (both graphs equal); "llama": full and partial graph differ
+	Ctx   int    `json:"ctx"`   // num_ctx (0 = 2048)
+	Sweep bool   `json:"sweep"` // also run with the first GPU's free memory at, just below and just above every placement threshold
 }
 
 func vfMemWrite(path string, kv ggml.KV, ts []ggml.Tensor) error {
@@ -53,7 +56,10 @@ type vfMemModel struct {
 	f *ggml.GGML
 }
 
-func vfMemLoadModel(dir string, blk []int, out int) (*ggml.GGML, error) {
+func vfMemLoadModel(dir string, blk []int, out int, arch string) (*ggml.GGML, error) {
+	if arch == "" {
+		arch = "vf"
+	}
 	var ts []ggml.Tensor
 	for i, n := range blk {
 		ts = append(ts, vfMemTensor(fmt.Sprintf("blk.%d.w.weight", i), n))
@@ -61,20 +67,72 @@ func vfMemLoadModel(dir string, blk []int, out int) (*ggml.GGML, error) {
 	if out > 0 {
 		ts = append(ts, vfMemTensor("output.weight", out))
 	}
-	path := filepath.Join(dir, fmt.Sprintf("m-%v-%d.gguf", blk, out))
+	path := filepath.Join(dir, fmt.Sprintf("m-%s-%v-%d.gguf", arch, blk, out))
 	err := vfMemWrite(path, ggml.KV{
-		"general.architecture":       "vf",
-		"vf.context_length":          uint32(2048),
-		"vf.embedding_length":        uint32(2),
-		"vf.block_count":             uint32(len(blk)),
-		"vf.attention.head_count":    uint32(2),
-		"vf.attention.head_count_kv": uint32(1),
-		"tokenizer.ggml.tokens":      []string{" "},
+		"general.architecture":           arch,
+		arch + ".context_length":          uint32(2048),
+		arch + ".embedding_length":        uint32(2),
+		arch + ".block_count":             uint32(len(blk)),
+		arch + ".attention.head_count":    uint32(2),
+		arch + ".attention.head_count_kv": uint32(1),
+		"tokenizer.ggml.tokens":           []string{" "},
 	}, ts)
 	if err != nil {
 		return nil, err
 	}
 	return LoadModel(path, 0)
+}
+
+// the case itself, and for a sweep case the same with the first GPU's free memory around every placement threshold
+func vfMemRunAll(dir string, models map[string]*ggml.GGML, c vfMemCase) []map[string]any {
+	first := vfMemRun(dir, models, c)
+	recs := []map[string]any{first}
+	if !c.Sweep || first["err"] != "" || len(c.Gpus) == 0 {
+		return recs
+	}
+	u := func(k string) int {
+		switch v := first[k].(type) {
+		case uint64:
+			return int(v)
+		case int:
+			return v
+		}
+		return 0
+	}
+	L := first["L"].([]uint64)
+	bases := map[int]bool{0: true}
+	for lo := 0; lo <= len(L); lo++ { // sums of runs of consecutive layers (placement goes from the last layer down)
+		sum := 0
+		for hi := lo; hi < len(L); hi++ {
+			sum += int(L[hi])
+			bases[sum] = true
+		}
+	}
+	if len(L) > 0 { // an admitted GPU starts with its minimum and one buffer layer of the size of blk.0
+		for b := range bases {
+			bases[b+int(L[0])] = true
+		}
+	}
+	seen := map[int]bool{c.Gpus[0].Free: true}
+	for base := range bases {
+		for _, g := range []int{u("gP"), u("gF")} {
+			for _, out := range []int{0, u("out")} {
+				t := base + g + out + u("gzo") + c.Opt.Ov + c.Gpus[0].Min
+				for d := -1; d <= 1; d++ {
+					if f := t + d; f > 0 && !seen[f] {
+						seen[f] = true
+						c2 := c
+						c2.Gpus = append(c2.Gpus[:0:0], c.Gpus...)
+						c2.Gpus[0].Free = f
+						r := vfMemRun(dir, models, c2)
+						r["id"] = fmt.Sprintf("%d/%d", c.Id, f)
+						recs = append(recs, r)
+					}
+				}
+			}
+		}
+	}
+	return recs
 }
 
 func vfMemRun(dir string, models map[string]*ggml.GGML, c vfMemCase) (rec map[string]any) {
@@ -86,11 +144,11 @@ func vfMemRun(dir string, models map[string]*ggml.GGML, c vfMemCase) (rec map[st
 			rec["err"] = fmt.Sprint("panic: ", r)
 		}
 	}()
-	key := fmt.Sprint(c.Blk, c.Opt.Out)
+	key := fmt.Sprint(c.Arch, c.Blk, c.Opt.Out)
 	f := models[key]
 	if f == nil {
 		var err error
-		if f, err = vfMemLoadModel(dir, c.Blk, c.Opt.Out); err != nil {
+		if f, err = vfMemLoadModel(dir, c.Blk, c.Opt.Out, c.Arch); err != nil {
 			rec["err"] = err.Error()
 			return
 		}
@@ -121,12 +179,19 @@ func vfMemRun(dir string, models map[string]*ggml.GGML, c vfMemCase) (rec map[st
 	}
 	opts := api.DefaultOptions()
 	opts.NumCtx = 2048
+	if c.Ctx > 0 {
+		opts.NumCtx = c.Ctx
+	}
 	opts.NumGPU = c.Opt.Ng
 	est := EstimateGPULayers(gpus, f, projectors, opts, 1)
 	fit, _ := PredictServerFit(gpus, f, nil, projectors, opts, 1)
 
 	// the inputs the estimator works with, obtained the way it obtains them
-	kv, _, _ := f.GraphSize(uint64(opts.NumCtx), uint64(min(opts.NumCtx, opts.NumBatch)), 1, "")
+	ctx := opts.NumCtx
+	if len(projectors) > 0 {
+		ctx = max(ctx, 2048) // "multimodal models require at least 2048 context"
+	}
+	kv, _, _ := f.GraphSize(uint64(ctx), uint64(min(ctx, opts.NumBatch)), 1, "")
 	layers := f.Tensors().GroupLayers()
 	L := make([]uint64, len(c.Blk))
 	for i := range L {
@@ -181,7 +246,9 @@ func TestVFMemReplay(t *testing.T) {
 		if err := json.Unmarshal(sc.Bytes(), &c); err != nil {
 			t.Fatalf("bad case: %v", err)
 		}
-		enc.Encode(vfMemRun(dir, models, c))
+		for _, r := range vfMemRunAll(dir, models, c) {
+			enc.Encode(r)
+		}
 		n++
 	}
 	os.Unsetenv("OLLAMA_GPU_OVERHEAD")
